@@ -912,6 +912,28 @@ def fold_str(e, f, ix, depth=0):
         if len(vals) == 1:
             return fold_str(vals[0], f, ix, depth + 1)
         return None
+    if isinstance(e, ast.JoinedStr):
+        # f-string whose placeholders are foldable strings, without conversions or format specs
+        out = []
+        for v in e.values:
+            if isinstance(v, ast.Constant) and isinstance(v.value, str):
+                out.append(v.value)
+            elif isinstance(v, ast.FormattedValue) and v.conversion in (-1, 115) and v.format_spec is None:
+                x = fold_str(v.value, f, ix, depth + 1)
+                if x is None:
+                    return None
+                out.append(x)
+            else:
+                return None
+        return "".join(out)
+    if isinstance(e, ast.Call) and isinstance(e.func, ast.Attribute) and e.func.attr == "format" and not e.keywords:
+        a = fold_str(e.func.value, f, ix, depth + 1)
+        vals = [fold_str(x, f, ix, depth + 1) for x in e.args]
+        if a is not None and all(v is not None for v in vals):
+            try:
+                return a.format(*vals)
+            except Exception:
+                return None
     if isinstance(e, ast.BinOp) and isinstance(e.op, ast.Add):
         a, b = fold_str(e.left, f, ix, depth + 1), fold_str(e.right, f, ix, depth + 1)
         return a + b if a is not None and b is not None else None
